@@ -171,6 +171,21 @@ func checkC06(c *Ctx) {
 			c.Violation("GF", "tree.Tree.removeTip/support-inner-only", sc.call.Pos(), "merged support may be written on a tip branch: "+wit).Clause = "support only on inner branches"
 		}
 	}
+	// no successful return skips the removal loop, except when no name is given in remove mode
+	c.noEarlySuccess("PATH", fi, "removeTip", func(info *types.Info, conds []cond) bool {
+		code := c.condsToBexpr(info, conds, nil)
+		spec := bAnd(bNot(bAtom(revert.Name())), intCmp("len("+names.Name()+")", token.EQL, 0))
+		imp, _, _, err := gfImplies(code, spec)
+		return err == nil && imp
+	}, "its tip set is exactly the requested one ... Names not present in the tree are ignored")
+	// STALE: Tip() is not asked of a node between its detachment and its re-attachment
+	c.Decides("STALE: in package tree no node is asked Tip() (exactly one neighbour) after delNeighbor was applied to it and before it is attached again; PATH: no successful return of RemoveTips skips the removal loop, except in remove mode with no name given")
+	_, _ = c.staleTip("STALE", c.AllFuncs("tree"), "yields the tree induced on the remaining tips")
+	if fx := c.Fixture(); fx != nil {
+		sub := c.subCtx(fx)
+		_, h := sub.staleTip("STALE", sub.AllFuncs(), "")
+		c.Control("STALE", h > 0, "fixture.C06StaleTip asks Tip() of a node it has just detached")
+	}
 	c.checkPair("PAIR", map[string]bool{"removeTip": true})
 	c.Floor("PAIR", 4)
 	c.Floor("GF", 2)
